@@ -111,9 +111,19 @@ OpPop(s, i) ==      \* i = None: pop()
   LET n == Len(s)  j == IF i = None THEN -1 ELSE i  k == NormIdx(j, n) IN
   IF k < 0 \/ k >= n THEN Fail(s, {"IndexError"}) ELSE Ok(DelPos(s, {k}), s[k + 1])
 
-OpRemove(s, x) ==   \* the argument is NOT validated (documented)
-  IF \E i \in 1..Len(s) : s[i] = x
-  THEN Ok(DelPos(s, {(CHOOSE i \in 1..Len(s) : s[i] = x /\ \A j \in 1..(i - 1) : s[j] # x) - 1}), None)
+\* ---- items as OBJECTS: identity and == are different relations.  Items 105 and 106 are two distinct objects that
+\* compare equal (twins); item 107 is an object that does not compare equal to anything, itself included (as float('nan')).
+\* All other items are equal only to themselves.  The contents of a list are objects: sequences are compared item by
+\* item by identity (so replacing 105 by its twin 106 is a change), while list.remove / index / count / in search with
+\* "identical or equal" (PyObject_RichCompareBool), which finds 107 by identity although 107 == 107 is false.
+Twin(x) == IF x = 105 THEN 106 ELSE IF x = 106 THEN 105 ELSE x
+NotSelfEqual == 107
+PyEq(x, y) == x # NotSelfEqual /\ y # NotSelfEqual /\ (x = y \/ Twin(x) = y)
+SameOrEq(x, y) == x = y \/ PyEq(x, y)
+
+OpRemove(s, x) ==   \* the argument is NOT validated (documented); the first item identical or equal to it goes
+  IF \E i \in 1..Len(s) : SameOrEq(s[i], x)
+  THEN Ok(DelPos(s, {(CHOOSE i \in 1..Len(s) : SameOrEq(s[i], x) /\ \A j \in 1..(i - 1) : ~SameOrEq(s[j], x)) - 1}), None)
   ELSE Fail(s, {"ValueError"})
 
 OpReverse(s) == Ok([i \in 1..Len(s) |-> s[Len(s) + 1 - i]], None)
